@@ -52,7 +52,20 @@ TABLES = [
     [[["OLDT", "G", False], ["OLDX", "NOPE", False]], [["OLDT", "T", True], ["OLDM", "M2", False], ["OLDS", "S", True]]],
     # an inverted mapping replaced by a plain one (the stale inversion must not survive), and the reverse
     [[["OLDT", "G", True], ["OLD2", "T", False]], [["OLDT", "T", False], ["OLD2", "G", True]]],
+    # the same name mapped twice to the same option, the marker differing (within one file / across files): last one wins
+    [[["OLDT", "T", True], ["OLDT", "T", False], ["OLDN", "N", False]]],
+    [[["OLDT", "T", False]], [["OLDT", "T", True], ["OLDT", "T", True]]],
 ]
+
+
+def tables_for(tier):
+    if tier == "quick":
+        return TABLES
+    # every ordered pair of mappings of one old name over two bool targets and both markers
+    opts = [(n, inv) for n in ("T", "G") for inv in (False, True)]
+    extra = [[[["OLDT", a[0], a[1]], ["OLDT", b[0], b[1]]]] for a in opts for b in opts]
+    return TABLES + [t for t in extra if t not in TABLES]
+
 
 TYPES = {"G": "bool", "T": "bool", "N": "int", "S": "string", "H": "hex", "D": "bool", "M1": "bool", "M2": "bool", "OBS": "bool"}
 
@@ -148,7 +161,8 @@ def main(run):
     names = ktree.sym_names(item["prog"])
     progs = []
     total = 0
-    for ren_files in TABLES:
+    all_tables = tables_for(tier)
+    for ren_files in all_tables:
         tab_lines = [ln for f in ren_files for ln in f]
         uni = universe(tab_lines)
         files = []
@@ -237,8 +251,8 @@ def main(run):
             continue
         bad.add((t, i))
         run.report(
-            "%s: %s vs %s for file %r with renames %s" % (tag, a, b, text_of([dict(ln, t=None) for ln in case["file"]]), TABLES[t - 1]),
-            {"kconfig": text, "renames": TABLES[t - 1], "file": case["file"], "clause": tag, "expected": a, "observed": b},
+            "%s: %s vs %s for file %r with renames %s" % (tag, a, b, text_of([dict(ln, t=None) for ln in case["file"]]), all_tables[t - 1]),
+            {"kconfig": text, "renames": all_tables[t - 1], "file": case["file"], "clause": tag, "expected": a, "observed": b},
             {tag},
         )
     run.cov["traces_validated_against_impl"] = total - len(bad)
